@@ -24,6 +24,7 @@ func c01Layers(c *Ctx) []sweepLayer {
 			{"L2", GenOpts{OneGate: true, LeafSet: 2}, 2, cov},
 			{"L3", GenOpts{OneGate: true, LeafSet: 2, Reps: true}, 3, four},
 			{"scale", GenOpts{Scale: true, ScaleThorough: true}, 0, coveringFlags8(ns)},
+			{"spellings", GenOpts{LeafSet: 1, Spellings: true, FieldNames: []string{"fld", "pr\u00e9nom/x", "\U0001F600k", "owner", "tags", "qty"}}, 1, four},
 		}
 	}
 	return []sweepLayer{
@@ -32,6 +33,7 @@ func c01Layers(c *Ctx) []sweepLayer {
 		{"L1", GenOpts{OneGate: true, LeafSet: 1}, 1, coveringFlags8(ns)},
 		{"L2", GenOpts{OneGate: true, LeafSet: 2, Slots: []int{0, 4, 12}}, 2, four[:2]},
 		{"scale", GenOpts{Scale: true}, 0, four},
+		{"spellings", GenOpts{LeafSet: 2, OneGate: true, Spellings: true, FieldNames: []string{"fld", "pr\u00e9nom/x", "\U0001F600k", "owner", "tags", "qty"}}, 0, four},
 	}
 }
 
